@@ -250,6 +250,8 @@ func c06E5(r *core.R) {
 	}
 	// (b) reader: a block of unexpected type travels as an error in the pair of that iteration
 	c06BlockType(r, m, fs)
+	// (c) the block the spawner reads itself is held to the same rule
+	c06FirstBlock(r, m)
 }
 
 func c01IsStringSlice(t types.Type) bool {
